@@ -38,7 +38,8 @@ def gen_ops(rnd, order, kinds, desc):
     opt = [x for x in desc["params"] if x not in required and rnd.random() < 0.5]
     ops = []
     if rnd.random() < 0.5:
-        kw = required + opt; rnd.shuffle(kw); npos = rnd.randint(0, len(required))
+        # positional arguments: a prefix of the parameters - of the required ones, or reaching into the defaulted ones and the init variables
+        kw = required + opt; rnd.shuffle(kw); npos = rnd.randint(0, len(required)) if rnd.random() < 0.5 else rnd.randint(0, len(desc["params"]))
         pos = desc["params"][:npos]; kw = [k for k in kw if k not in pos]
         ops.append(["construct", npos, kw])
     else:
